@@ -121,6 +121,49 @@ func (g *gen) genStalls() []*simfs.Fault {
 	return out
 }
 
+// genSyncFaults draws 1-2 rules that fail a few directory syncs or file syncs
+// of tables, blob files or the MANIFEST (flushdur profile, C12).
+func (g *gen) genSyncFaults() []*simfs.Fault {
+	var out []*simfs.Fault
+	n := 1 + g.r.IntN(2)
+	for i := 0; i < n; i++ {
+		f := &simfs.Fault{Errno: "EIO", Skip: g.r.IntN(30), Count: 1 + g.r.IntN(2)}
+		switch g.r.IntN(3) {
+		case 0:
+			f.Name, f.Kinds = "dirsync", simfs.KindMask(simfs.OpSyncDir)
+		case 1:
+			f.Name, f.Kinds, f.Classes = "table-sync", simfs.KindMask(simfs.OpSync), simfs.ClassMask(simfs.ClsTable, simfs.ClsBlob)
+		default:
+			f.Name, f.Kinds, f.Classes = "manifest-sync", simfs.KindMask(simfs.OpSync), simfs.ClassMask(simfs.ClsManifest)
+		}
+		out = append(out, f)
+	}
+	return out
+}
+
+// genDelays draws 1-2 stall rules for the crash profiles: a few syncs of the
+// MANIFEST, of tables or of directories take tens of simulated milliseconds.
+// The stalled job sleeps on the fake clock while every other task goes on, so
+// the window between "edit written" and "edit durable" (and the like) is held
+// open across many disk mutations - and crash forks land inside it.
+func (g *gen) genDelays() []*simfs.Fault {
+	var out []*simfs.Fault
+	n := 1 + g.r.IntN(2)
+	for i := 0; i < n; i++ {
+		f := &simfs.Fault{Skip: g.r.IntN(25), Count: 1 + g.r.IntN(4), DelayNs: int64(1+g.r.IntN(50)) * 1e6}
+		switch g.r.IntN(4) {
+		case 0, 1:
+			f.Name, f.Kinds, f.Classes = "stall-manifest", simfs.KindMask(simfs.OpSync, simfs.OpWrite), simfs.ClassMask(simfs.ClsManifest)
+		case 2:
+			f.Name, f.Kinds, f.Classes = "stall-table-sync", simfs.KindMask(simfs.OpSync), simfs.ClassMask(simfs.ClsTable, simfs.ClsBlob)
+		default:
+			f.Name, f.Kinds = "stall-dirsync", simfs.KindMask(simfs.OpSyncDir)
+		}
+		out = append(out, f)
+	}
+	return out
+}
+
 func (h *dbHarness) faultProfile() bool { return h.plan.Profile == "iofault" }
 
 // armFaults installs the plan's rules on the current disk (after an Open).
@@ -168,16 +211,10 @@ func (h *dbHarness) harvestFaultStats(d *simfs.Disk) {
 
 // errorsTolerated reports whether an operation may fail right now.
 func (h *dbHarness) errorsTolerated() bool {
-	if h.faultProfile() {
-		// Armed rules alone excuse nothing: an operation may fail only once an
-		// injected error has actually been returned to this incarnation.
-		return h.inc != nil && h.inc.FaultFired
-	}
-	if h.plan.Profile == "failover" {
-		// stalls excuse nothing; an injected error does
-		return h.inc != nil && h.inc.FaultFired
-	}
-	return (h.inc != nil && h.inc.FaultFired) || len(h.plan.Faults) > 0
+	// Armed rules alone excuse nothing (and stalls never do): an operation
+	// may fail only once an injected error has actually been returned to this
+	// incarnation.
+	return h.inc != nil && h.inc.FaultFired
 }
 
 // onPanic is simrt's panic hook: Pebble panics on some unrecoverable I/O
